@@ -564,3 +564,146 @@ func zzH_C03_aggregate_commit_window(t *zzT) { zzH_C06_commit_height_window(t) }
 //zz:stub (*github.com/supranational/blst/bindings/go.P2Aggregate).Aggregate zz06StubAggregate
 //zz:stub (*github.com/supranational/blst/bindings/go.P2Aggregate).ToAffine zz06StubToAffine
 func zzH_C15_aggregate_commit_height_choice(t *zzT) { zzH_C06_commit_height_choice(t) }
+
+
+// C06 "only single commits by active validators that verify against the current chain enter the pool" — the
+// node's OWN commits: Executer.Certify(from, to, address, key), called by the generator when finality advances.
+// Two parameter records (height 0 and a symbolic later height, each possibly lacking one validator), symbolic
+// from / to: afterwards the pool holds, for the certifying validator, exactly one commit for every height in
+// (from, to] at which a parameter record is stored and the validator is in that record — for the node's own block
+// at that height — and nothing else; from > to is refused.
+//
+//zz:opt loop=200 require=certified,nothing
+//zz:stub (*~/pkg/consensus/liskbft.API).GetBFTHeights zz06StubGetBFTHeights
+//zz:stub (*~/pkg/consensus/liskbft.API).ExistBFTParameters zz06StubExistBFTParameters
+//zz:stub (*~/pkg/consensus/liskbft.API).GetBFTParameters zz06StubGetBFTParameters
+//zz:stub (*~/pkg/consensus/liskbft.BFTParams).Validators zz06StubValidators
+//zz:stub (*~/pkg/blockchain.DataAccess).GetBlockHeaderByHeight zz06StubGetBlockHeaderByHeight
+//zz:stub ~/pkg/crypto.BLSSign zz06StubBLSSign
+func zzH_C06_certify_own_commits(t *zzT) {
+	const n = 2
+	e := zz06NewEnv(t, n, []byte{1, 2})
+	e.precommitted, e.prevoted, e.certified = 9, 9, 0
+	e.tip = 9
+	e.hasNext = true
+	e.nextH = uint32(t.Range("params2.height", 2, 5))
+	e.setA.absent = t.Choice("setA.absent", n+1) - 1
+	e.setB.absent = t.Choice("setB.absent", n+1) - 1
+	ws := []uint64{1, 1}
+	e.setParams(e.setA, 1, ws)
+	e.setParams(e.setB, 1, ws)
+	from := uint32(t.Range("from", 0, 5))
+	to := uint32(t.Range("to", 0, 6))
+	e.install()
+	e.storeHeaders(0, 1, 2, 3, 4, 5, 6)
+	v := t.Choice("validator", n)
+	err := e.ex.Certify(from, to, zz06Addr(v), e.bls.sks[v])
+	if from > to {
+		t.Assert(err != nil && e.ex.certificatePool.Size() == 0, "an inverted range is refused and certifies nothing")
+		t.Reach("nothing")
+		return
+	}
+	t.Assert(err == nil, "Certify succeeds on the node's own chain")
+	total := 0
+	active := func(h uint32) bool { return e.paramsAt(h).absent != v }
+	for h := uint32(0); h <= 6; h++ {
+		got := e.ex.certificatePool.Get(h)
+		// LIP-0061 as implemented: every height of (from, to] at which a parameter record is stored, and the last
+		// height of the range unless a parameter record is stored right above it — if the validator is in the
+		// set in force at that height
+		inLoop := h > from && h <= to && h == e.nextH
+		isLast := h == to && e.nextH != to+1
+		want := (inLoop || isLast) && active(h)
+		if want {
+			ok := len(got) == 1 && zz06BytesEqual(got[0].ValidatorAddress(), zz06Addr(v)) && got[0].Height() == h && zz06BytesEqual(got[0].BlockID(), e.header(h).ID)
+			t.Assert(ok, "exactly ONE commit by the certifying validator for the node's own block at every certifiable height of the range")
+			total++
+		} else {
+			t.Assert(len(got) == 0, "no commit for a height that is not to be certified or where the validator is not in the set")
+		}
+	}
+	t.Assert(e.ex.certificatePool.Size() == total, "the pool holds nothing else")
+	if total > 0 {
+		t.Reach("certified")
+	} else {
+		t.Reach("nothing")
+	}
+}
+
+
+// C06 "an aggregate commit the node assembles from the single commits in its pool is always accepted by its own
+// verification" when the node's own commits got there through Executer.Certify (the generator calls it when
+// finality advances): n validators with symbolic weights and threshold, a parameter record at height H = 5
+// (certified 4, precommitted 9), the node's validator v certifies the range (4, 5]; any subset of the other
+// validators' commits for height 5 is in the pool as well. GetAggregateCommit then returns a commit its own
+// verifyAggregateCommit accepts.
+//
+//zz:opt loop=80 require=aggregated,empty
+//zz:quick N=2
+//zz:thorough N=3
+//zz:stub (*~/pkg/consensus/liskbft.API).GetBFTHeights zz06StubGetBFTHeights
+//zz:stub (*~/pkg/consensus/liskbft.API).NextHeightBFTParameters zz06StubNextHeightBFTParameters
+//zz:stub (*~/pkg/consensus/liskbft.API).ExistBFTParameters zz06StubExistBFTParameters
+//zz:stub (*~/pkg/consensus/liskbft.API).GetBFTParameters zz06StubGetBFTParameters
+//zz:stub (*~/pkg/consensus/liskbft.BFTParams).Validators zz06StubValidators
+//zz:stub (*~/pkg/consensus/liskbft.BFTParams).CertificateThreshold zz06StubCertificateThreshold
+//zz:stub (*~/pkg/blockchain.DataAccess).GetBlockHeaderByHeight zz06StubGetBlockHeaderByHeight
+//zz:stub ~/pkg/crypto.BLSSign zz06StubBLSSign
+//zz:stub (*github.com/supranational/blst/bindings/go.P1Affine).Uncompress zz06StubP1Uncompress
+//zz:stub (*github.com/supranational/blst/bindings/go.P2Affine).Uncompress zz06StubP2Uncompress
+//zz:stub (*github.com/supranational/blst/bindings/go.P2Affine).Compress zz06StubP2Compress
+//zz:stub (*github.com/supranational/blst/bindings/go.P2Aggregate).Aggregate zz06StubAggregate
+//zz:stub (*github.com/supranational/blst/bindings/go.P2Aggregate).ToAffine zz06StubToAffine
+//zz:stub (*github.com/supranational/blst/bindings/go.P2Affine).FastAggregateVerify zz06StubFastAggregateVerify
+func zzH_C06_certified_commits_aggregate_accepted(t *zzT) {
+	n := t.Range("n", 2, t.Param("N", 2))
+	order := make([]byte, n)
+	for i := range order {
+		order[i] = t.U8(t.Name("key", i))
+	}
+	e := zz06NewEnv(t, n, order)
+	const h = 5
+	e.certified, e.precommitted, e.prevoted = 4, 9, 9
+	e.tip = 9
+	e.hasNext, e.nextH = true, h
+	ws := make([]uint64, n)
+	for i := range ws {
+		ws[i] = uint64(t.U16(t.Name("weight", i)))
+		t.Assume(ws[i] >= 1) // SetBFTParameters admits positive weights only
+	}
+	var total uint64
+	for _, w := range ws {
+		total += w
+	}
+	threshold := uint64(t.U32("threshold"))
+	t.Assume(threshold >= total/3+1 && threshold <= total) // … and thresholds in [W/3+1, W]
+	e.setParams(e.setA, threshold, ws)
+	e.setParams(e.setB, threshold, ws)
+	e.install(h)
+	e.storeHeaders(4, 5, 6)
+	own := e.header(h)
+	e.bls.msg = zz06CertMsg(own, e.chainID)
+	v := 0
+	cerr := e.ex.Certify(4, h, zz06Addr(v), e.bls.sks[v])
+	t.Assert(cerr == nil, "Certify succeeds")
+	signedWeight := ws[v]
+	for i := 1; i < n; i++ {
+		if t.Bool(t.Name("signs", i)) {
+			signedWeight += ws[i]
+			e.ex.certificatePool.Add(certificate.NewSingleCommit(own, zz06Addr(i), e.chainID, e.bls.sks[i]))
+		}
+	}
+	ac, err := e.ex.GetAggregateCommit()
+	t.Assert(err == nil && ac != nil, "GetAggregateCommit succeeds")
+	if err != nil || ac == nil {
+		return
+	}
+	verr := e.ex.verifyAggregateCommit(e.store, ac)
+	t.Assert(verr == nil, "the aggregate commit assembled from the pool (own commits added by Certify) is accepted by the node's own verifyAggregateCommit")
+	if len(ac.AggregationBits) > 0 {
+		t.Assert(signedWeight >= threshold, "a non-empty aggregate commit is backed by signers whose weight reaches the threshold")
+		t.Reach("aggregated")
+	} else {
+		t.Reach("empty")
+	}
+}
